@@ -53,6 +53,7 @@ type GenesisCfg struct {
 	DowntimeJailSec int64   `json:"downtime_jail_sec"`
 	SnapshotLimit   uint64  `json:"snapshot_limit"`
 	TeamAcct        int     `json:"team_acct"`
+	Twins           []int   `json:"twins,omitempty"` // plain accounts with identical balances reserved for exact vote ties
 	KeyringShipped  bool    `json:"keyring_shipped"` // use the shipped viper+file keyring path instead of hook H1
 	NodeCfgs        []NodeCfg `json:"node_cfgs"`
 }
